@@ -209,7 +209,10 @@ class RedlineEngine:
         if not text:
             return []
 
-        token_pattern = re.compile(r"(\*\*.*?\*\*)|(_.*?_)")
+        # A span needs non-empty content that neither starts nor ends with whitespace; an italic
+        # underscore must not touch a word character or another underscore on its outer side,
+        # so placeholders like [___] and identifiers like snake_case stay literal.
+        token_pattern = re.compile(r"(\*\*(?=\S).+?(?<=\S)\*\*)|((?<![\w_])_(?=[^\s_]).*?(?<=[^\s_])_(?![\w_]))")
 
         match = token_pattern.search(text)
 
